@@ -429,3 +429,30 @@ func DeadlockKeyValues() {
 	vsym.Assert("K3-reversed-batch-answered", len(res) == 2)
 	vsym.Reach("all-completed")
 }
+
+// DeadlockDuplicateKeyBatch: a batch that names one key twice (attestations or proposals), alone and
+// next to a well-formed request for the same key: it is answered (refused), nothing is left locked.
+func DeadlockDuplicateKeyBatch() {
+	vsym.ForbidCrash()
+	ctx := context.Background()
+	w := newWorld(ctx, "conc", symbolicPre(0, false))
+	dup := concreteAtt([]int{0, 0}, 10)
+	if vsym.Choose("three-entries", 2) == 1 {
+		dup = concreteAtt([]int{1, 0, 1}, 10)
+	}
+	other := concreteAtt([]int{0}, 50)
+	var got [2][]rules.Result
+	vsym.Explore(1)
+	vsym.Spawn(func() { got[0] = w.ruler.RunRules(ctx, hc.Creds(), dup.action, dup.data()) })
+	vsym.Spawn(func() { got[1] = w.ruler.RunRules(ctx, hc.Creds(), other.action, other.data()) })
+	vsym.Join()
+	vsym.Sequential()
+	vsym.Reach("duplicate-key-batch-answered")
+	vsym.Assert("D1-every-request-answered", len(got[0]) == len(dup.keys) && len(got[1]) == 1)
+	for _, v := range got[0] {
+		vsym.Assert("D4-duplicate-key-batch-approves-nothing", v != rules.APPROVED)
+	}
+	vsym.Assert("D2-definite-verdicts", len(got[1]) == 1 && got[1][0] == rules.APPROVED)
+	after := w.ruler.RunRules(ctx, hc.Creds(), ruler.ActionSignBeaconAttestation, concreteAtt([]int{0, 1, 2}, 5000).data())
+	vsym.Assert("D3-no-lock-left-behind", len(after) == 3)
+}
